@@ -363,8 +363,8 @@ def run(mod, tier, seed):
         "coverage": cov, "assumptions": list(getattr(mod, "ASSUMPTIONS", [])),
         "wall_s": round(wall, 2), "violations": len(unknown),
     }
-    evdir = ROOT / "evidence"
-    evdir.mkdir(exist_ok=True)
+    evdir = Path(os.environ.get("VERIF_EVIDENCE_DIR") or (ROOT / "evidence"))
+    evdir.mkdir(parents=True, exist_ok=True)
     (evdir / f"{pid}.json").write_text(json.dumps(evidence, indent=1, sort_keys=True, default=str) + "\n")
     print(f"[{pid}] tier={tier} seed={seed} cases={agg['cases']} evaluations={agg['evaluations']} "
           f"distinct_nontrivial={len(agg['shapes'])} known={len(known_hit)} "
@@ -383,7 +383,7 @@ def run(mod, tier, seed):
 
 
 def write_replay(pid, tier, seed, v):
-    d = ROOT / "evidence" / "replays" / pid
+    d = Path(os.environ.get("VERIF_EVIDENCE_DIR") or (ROOT / "evidence")) / "replays" / pid
     d.mkdir(parents=True, exist_ok=True)
     body = {"property": pid, "tier": tier, "seed": seed, "spec": v["spec"], "key": v["key"],
             "what": v["what"], "detail": v.get("detail", {}),
